@@ -154,6 +154,9 @@ def route_grammars(R):
                 R.Rule('DW', nest(R.Seq(R.Ref('X'), R.Str(';')))),
                 R.Rule('DE', nest(R.Seq(R.Ref('X'), R.Str(';'))), params=['X']),
                 R.Rule('D', R.Let('v', R.Ref('X'), inner)),
+                # a `let` that lies inside the part that is split off: its name is bound by the helper
+                # itself, not handed to it
+                R.Rule('DL', nest(R.Let('u', R.Ref('X'), R.Seq(R.Ref('u'), R.Str(';'))))),
                 R.Rule('T', R.Right(R.Ref('p'), R.Str('!')), params=['p']),
                 R.Rule('X', R.Regex('b+')),
                 R.Rule('Space', R.Regex(r'\s+'), ignored=True)]
@@ -198,6 +201,13 @@ def route_grammars(R):
             for i in range(d):
                 e = R.Seq(e)
             rules.append(R.Rule(f'O{d}', e))
+        # a binder at every depth: wherever the split falls, a name bound inside the part that is split
+        # off stays inside it, a name bound outside is handed in
+        for d in range(9, 24, 2):
+            e = R.Let('u', R.Ref('X'), R.Seq(R.Ref('u'), R.Str(';')))
+            for i in range(d):
+                e = R.Seq(e)
+            rules.append(R.Rule(f'B{d}', R.Let('w', R.Ref('X'), R.Seq(e, R.Ref('w')))))
         return [R.Rule('start', R.Ref('S9'))] + rules + [R.Rule('X', R.Regex('b+'))]
     G.append(('deep-nesting-threshold', deep_threshold, {'names': (None,)}))
 
